@@ -361,7 +361,9 @@ pub fn write_generic(code: &str, header: &vcf::Header, recs: &[&dyn vcf::variant
         for r in recs {
             w.write_record(header, *r)?;
         }
-        // the generic variant writer has no finish(): dropping it flushes / finishes the stream
+        // variant::io::Writer::finish (bc303e1): reports destination errors; the drop that follows
+        // must add nothing (checked by the `vf` cases)
+        w.finish()?;
     }
     Ok(sink.bytes())
 }
